@@ -240,6 +240,11 @@ def classify(fx, fn, local, depth=0, via="", seen=None):
             elif o == "core::result::Result::<T, E>::as_ref" or o == "core::result::Result::<T, E>::as_mut" \
                     or o == "core::ops::deref::Deref::deref" or o == "core::clone::Clone::clone":
                 res.extend(classify(fx, fn, n["dest"]["l"], depth + 1, via, seen))
+            elif (callee_path(n) in fx.fns and ai < fx.fns[callee_path(n)].argc
+                  and RESULT_RE.match(fx.fns[callee_path(n)].locals[ai + 1]["ty"])):
+                # handed to a workspace function whose fallible parameter is an obligation of its own
+                res.append(Classified("DELEGATED", via + "handled by %s (its parameter is checked there)"
+                                      % callee_path(n), ok=True))
             else:
                 res.append(Classified("PASSED", via + "passed to %s (arg %d)" % (o, ai), ok=False))
             continue
@@ -266,10 +271,14 @@ def classify(fx, fn, local, depth=0, via="", seen=None):
             if rv["pl"]["l"] == local and not rv["pl"].get("p"):
                 res.extend(classify(fx, fn, lhs["l"], depth + 1, via, seen))
         elif k == "discr":
-            if rv["pl"].get("p") and any(e != "deref" for e in rv["pl"]["p"]):
-                continue
+            pr = [e for e in rv["pl"].get("p", []) if e != "deref"]
             if OPT_RESULT_RE.match(fn.locals[local]["ty"]):
-                continue   # matching the Option layer; the Result is the Some payload (handled under `use`)
+                # `match opt_res { Some(Ok(..)) .., Some(Err(e)) .., None .. }`: the Result layer is the
+                # discriminant of the Some payload; the Option layer itself is not a failure test
+                if not (len(pr) == 2 and isinstance(pr[0], dict) and pr[0].get("dc") == "Some"):
+                    continue
+            elif pr:
+                continue
             dl = lhs["l"]
             for s2, how2 in du.uses.get(dl, []):
                 if how2 == "switch" and s2.is_term:
